@@ -12,6 +12,8 @@
      C08_error_has_cause    every reported error class names a fault that happened
      C08_nil_request, C08_not_connected, C08_set_write_deadline_fails, C08_write_fails
                             faults before the first read: immediate, classified
+     C08_do_keeps_state, C08_sequence_is_map, C08_later_calls_independent
+                            several calls on one object: no call depends on how earlier ones ended
      C08_prefix_is_live + C08_stall / _cancel / _io_error / _oversize / _eof_network / _eof_serial
                             the fault kinds after any prefix of a reply that is below the stop
                             threshold ([alive_through]: every read boundary so far is below the
@@ -22,7 +24,7 @@
    part of the property is a known finding, C08_short_formula_refuted / C08_fc17_eof_refuted. *)
 Require Import MB.GoSem MB.CrcModel MB.PacketModel MB.ClientModel.
 Require Import MB.proofs.ClientProofs MB.proofs.ClientC07 MB.proofs.ClientC07Inst MB.proofs.ClientInv.
-Require Import MB.proofs.ClientC08 MB.proofs.ClientNoPanic MB.proofs.ClientCause.
+Require Import MB.proofs.ClientC08 MB.proofs.ClientNoPanic MB.proofs.ClientCause MB.proofs.ClientSeq.
 Open Scope N_scope.
 
 Theorem C08_bounded :
@@ -204,6 +206,62 @@ Theorem C08_eof_serial :
   fst (client_do cfg sc (Some q)) = OFail CTimeout.
 Proof. exact fault_eof_serial. Qed.
 Print Assumptions C08_eof_serial.
+
+(* ---------- several calls on one client object ----------
+   [run_ops cfg0 s ops] (ClientModel.v): Connect, Close and Do in sequence; the object's state is
+   the connection field and whether the transport has been closed.
+     C08_do_keeps_state          a Do leaves the state as it found it, whatever its outcome
+     C08_sequence_is_map         the i-th result is the single call, made in the state left by the
+                                 Connect / Close calls before it -- each Do is [client_do], so
+                                 every single-call theorem of C07, C08, C12, C19 applies to it
+     C08_later_calls_independent replacing the earlier calls by any others with the same Connect /
+                                 Close calls (other requests, scripts, faults) leaves the later
+                                 results unchanged: a failed call does not poison the next
+   Go facts these rest on: (1) Do assigns neither c.conn nor c.serialPort (transcribed: ClientModel
+   step_op); (2) every method releases c.mu on every return path, so a later call is never blocked by
+   an earlier one that has returned -- not expressible in this sequential model: it is the regenerated
+   lock-skeleton obligation of C14 (Properties/C14.v), and the correspondence stream c08seq runs
+   every call under a watchdog and reports a call that does not return. *)
+Theorem C08_do_keeps_state :
+  forall cfg0 s r sc, fst (step_op cfg0 s (OpDo r sc)) = s.
+Proof. exact do_keeps_state. Qed.
+Print Assumptions C08_do_keeps_state.
+
+Theorem C08_do_in_sequence_is_client_do :
+  forall cfg0 s r sc,
+  call cfg0 s (OpDo r sc) =
+  RDo (client_do (cfg_in cfg0 s) (if st_closed s then on_closed (c_kind cfg0) sc else sc) r).
+Proof. exact do_is_client_do. Qed.
+Print Assumptions C08_do_in_sequence_is_client_do.
+
+Theorem C08_sequence_is_map :
+  forall cfg0 ops s i,
+  nth_error (run_ops cfg0 s ops) i =
+  option_map (call cfg0 (state_after cfg0 s (lifecycle (firstn i ops)))) (nth_error ops i).
+Proof. exact run_ops_is_map. Qed.
+Print Assumptions C08_sequence_is_map.
+
+Theorem C08_later_calls_independent :
+  forall cfg0 s before before' after,
+  lifecycle before = lifecycle before' ->
+  skipn (length before) (run_ops cfg0 s (before ++ after)) =
+  skipn (length before') (run_ops cfg0 s (before' ++ after)).
+Proof. exact later_calls_independent. Qed.
+Print Assumptions C08_later_calls_independent.
+
+(* not connected, then a failing call, then a good one, Close, Do on the closed connection, and a
+   new Connect: each call returns what it would return alone *)
+Example C08_example_sequence :
+  let q := rq false (RWReg 1 2 3 4) in
+  let reply := reply_bytes q (PWReg 1 2 3 4) in
+  let good := OpDo (Some q) (plain [deliver false (firstn 5 reply); deliver true (skipn 5 reply)]) in
+  let stall := OpDo (Some q) (plain [deliver false (firstn 5 reply); quiet; timer_step false (RTimeout [])]) in
+  map (fun r => match r with RDo x => Some (fst x) | _ => None end)
+      (run_ops (cfg_of KTcp) {| st_conn := false; st_closed := false |}
+               [good; OpConnect true; good; OpConnect false; stall; good; OpClose; good; OpConnect false; good])
+  = [Some (OFail CNotConnected); None; Some (OFail CNotConnected); None; Some (OFail CTimeout);
+     Some (OResp 7 (PWReg 1 2 3 4)); None; Some (OFail (CIo SiteSWD)); None; Some (OResp 7 (PWReg 1 2 3 4))].
+Proof. vm_compute. reflexivity. Qed.
 
 (* ---------- non-vacuity ---------- *)
 Definition ex8_q : creq := rq false (RRead 3 1 0 2).
